@@ -316,7 +316,7 @@ func TestValidationClasses(t *testing.T) {
 		{"param vs param", "unsupported", "SELECT id FROM owners WHERE $1 = $2", []any{1, 1}},
 		{"copy outside prepare", "unsupported", `COPY "links" ("idowner") FROM STDIN`, nil},
 		{"named parameter", "unsupported", "SELECT id FROM owners WHERE id = $1", []any{sql.Named("id", 1)}},
-		{"escape string", "unsupported", `SELECT id FROM owners WHERE name = E'a\n'`, nil},
+		{"bit string", "unsupported", `SELECT id FROM owners WHERE name = B'101'`, nil},
 	}
 	before := snapshotDB(e)
 	for i, c := range cases {
